@@ -42,7 +42,15 @@ type WScen struct {
 	// Outer: the incoming request context is derived from a long-lived scope of the same provider
 	// (e.g. a server whose base context is an application scope); the request must still get its own scope
 	Outer bool `json:"outer,omitempty"`
+	// TwoStacks: a second scope middleware with middlewares of its own is configured after the first one (another
+	// route group); the request goes through the first and must run the first one's middlewares only
+	TwoStacks bool `json:"two_stacks,omitempty"`
+	// DefaultErr: no WithErrorHandler option - the integration's default error handler answers
+	DefaultErr bool `json:"default_err,omitempty"`
 }
+
+// set by runWCase for the request in progress (request cases run one at a time)
+var wTwoStacks, wDefaultErr bool
 
 type HScen struct {
 	Integ      int  `json:"integ"`
@@ -176,7 +184,6 @@ func runRequestCtx(integ int, p godi.Provider, nmw int, exit, failAt int, rec *w
 		var mw func(http.Handler) http.Handler
 		if integ == 0 {
 			opts := []godihttp.Option{
-				godihttp.WithErrorHandler(func(w http.ResponseWriter, r *http.Request, err error) { rec.add("WErrHandler"); http.Error(w, "e", 500) }),
 				godihttp.WithCloseErrorHandler(func(error) { rec.add("WCloseErrHandler") }),
 			}
 			for i := 0; i < nmw; i++ {
@@ -187,10 +194,20 @@ func runRequestCtx(integ int, p godi.Provider, nmw int, exit, failAt int, rec *w
 					return mwFail(i)
 				}))
 			}
+			if !wDefaultErr {
+				opts = append(opts, godihttp.WithErrorHandler(func(w http.ResponseWriter, r *http.Request, err error) { rec.add("WErrHandler"); http.Error(w, "e", 500) }))
+			}
 			mw = godihttp.ScopeMiddleware(p, opts...)
+			if wTwoStacks {
+				var other []godihttp.Option
+				for i := 0; i <= nmw; i++ {
+					i := i
+					other = append(other, godihttp.WithMiddleware(func(s godi.Scope, r *http.Request) error { rec.add(fmt.Sprintf("WMw %d", 90+i)); return nil }))
+				}
+				_ = godihttp.ScopeMiddleware(p, other...)
+			}
 		} else {
 			opts := []godichi.Option{
-				godichi.WithErrorHandler(func(w http.ResponseWriter, r *http.Request, err error) { rec.add("WErrHandler"); http.Error(w, "e", 500) }),
 				godichi.WithCloseErrorHandler(func(error) { rec.add("WCloseErrHandler") }),
 			}
 			for i := 0; i < nmw; i++ {
@@ -201,7 +218,18 @@ func runRequestCtx(integ int, p godi.Provider, nmw int, exit, failAt int, rec *w
 					return mwFail(i)
 				}))
 			}
+			if !wDefaultErr {
+				opts = append(opts, godichi.WithErrorHandler(func(w http.ResponseWriter, r *http.Request, err error) { rec.add("WErrHandler"); http.Error(w, "e", 500) }))
+			}
 			mw = godichi.ScopeMiddleware(p, opts...)
+			if wTwoStacks {
+				var other []godichi.Option
+				for i := 0; i <= nmw; i++ {
+					i := i
+					other = append(other, godichi.WithMiddleware(func(s godi.Scope, r *http.Request) error { rec.add(fmt.Sprintf("WMw %d", 90+i)); return nil }))
+				}
+				_ = godichi.ScopeMiddleware(p, other...)
+			}
 		}
 		outer := http.HandlerFunc(func(w http.ResponseWriter, r *http.Request) {
 			defer func() {
@@ -220,7 +248,6 @@ func runRequestCtx(integ int, p godi.Provider, nmw int, exit, failAt int, rec *w
 		e := gin.New()
 		e.Use(gin.CustomRecoveryWithWriter(io.Discard, func(c *gin.Context, v any) { c.AbortWithStatus(500) }))
 		opts := []godigin.Option{
-			godigin.WithErrorHandler(func(c *gin.Context, err error) { rec.add("WErrHandler"); c.AbortWithStatus(500) }),
 			godigin.WithCloseErrorHandler(func(error) { rec.add("WCloseErrHandler") }),
 		}
 		for i := 0; i < nmw; i++ {
@@ -231,7 +258,18 @@ func runRequestCtx(integ int, p godi.Provider, nmw int, exit, failAt int, rec *w
 				return mwFail(i)
 			}))
 		}
+		if !wDefaultErr {
+			opts = append(opts, godigin.WithErrorHandler(func(c *gin.Context, err error) { rec.add("WErrHandler"); c.AbortWithStatus(500) }))
+		}
 		e.Use(godigin.ScopeMiddleware(p, opts...))
+		if wTwoStacks {
+			var other []godigin.Option
+			for i := 0; i <= nmw; i++ {
+				i := i
+				other = append(other, godigin.WithMiddleware(func(s godi.Scope, c *gin.Context) error { rec.add(fmt.Sprintf("WMw %d", 90+i)); return nil }))
+			}
+			_ = godigin.ScopeMiddleware(p, other...)
+		}
 		e.GET("/", func(c *gin.Context) {
 			s, _ := godi.FromContext(c.Request.Context())
 			rec.see(s, "WHandler")
@@ -261,7 +299,6 @@ func runRequestCtx(integ int, p godi.Provider, nmw int, exit, failAt int, rec *w
 			}
 		})
 		opts := []godiecho.Option{
-			godiecho.WithErrorHandler(func(c echo.Context, err error) error { rec.add("WErrHandler"); return c.NoContent(500) }),
 			godiecho.WithCloseErrorHandler(func(error) { rec.add("WCloseErrHandler") }),
 		}
 		for i := 0; i < nmw; i++ {
@@ -272,7 +309,18 @@ func runRequestCtx(integ int, p godi.Provider, nmw int, exit, failAt int, rec *w
 				return mwFail(i)
 			}))
 		}
+		if !wDefaultErr {
+			opts = append(opts, godiecho.WithErrorHandler(func(c echo.Context, err error) error { rec.add("WErrHandler"); return c.NoContent(500) }))
+		}
 		e.Use(godiecho.ScopeMiddleware(p, opts...))
+		if wTwoStacks {
+			var other []godiecho.Option
+			for i := 0; i <= nmw; i++ {
+				i := i
+				other = append(other, godiecho.WithMiddleware(func(s godi.Scope, c echo.Context) error { rec.add(fmt.Sprintf("WMw %d", 90+i)); return nil }))
+			}
+			_ = godiecho.ScopeMiddleware(p, other...)
+		}
 		e.GET("/", func(c echo.Context) error {
 			s, _ := godi.FromContext(c.Request().Context())
 			rec.see(s, "WHandler")
@@ -297,7 +345,6 @@ func runRequestCtx(integ int, p godi.Provider, nmw int, exit, failAt int, rec *w
 			return c.Next()
 		})
 		opts := []godifiber.Option{
-			godifiber.WithErrorHandler(func(c *fiber.Ctx, err error) error { rec.add("WErrHandler"); return c.SendStatus(500) }),
 			godifiber.WithCloseErrorHandler(func(error) { rec.add("WCloseErrHandler") }),
 		}
 		for i := 0; i < nmw; i++ {
@@ -308,7 +355,18 @@ func runRequestCtx(integ int, p godi.Provider, nmw int, exit, failAt int, rec *w
 				return mwFail(i)
 			}))
 		}
+		if !wDefaultErr {
+			opts = append(opts, godifiber.WithErrorHandler(func(c *fiber.Ctx, err error) error { rec.add("WErrHandler"); return c.SendStatus(500) }))
+		}
 		app.Use(godifiber.ScopeMiddleware(p, opts...))
+		if wTwoStacks {
+			var other []godifiber.Option
+			for i := 0; i <= nmw; i++ {
+				i := i
+				other = append(other, godifiber.WithMiddleware(func(s godi.Scope, c *fiber.Ctx) error { rec.add(fmt.Sprintf("WMw %d", 90+i)); return nil }))
+			}
+			_ = godifiber.ScopeMiddleware(p, other...)
+		}
 		app.Get("/", func(c *fiber.Ctx) error {
 			s := godifiber.FromContext(c)
 			s2, _ := godi.FromContext(c.UserContext())
@@ -355,7 +413,9 @@ func runWCase(c *WCase) {
 				rec.appID = app.ID()
 			}
 		}
+		wTwoStacks, wDefaultErr = s.TwoStacks, s.DefaultErr
 		c.Status = runRequestCtx(s.Integ, p, s.NMw, s.Exit, s.FailAt, rec, base)
+		wTwoStacks, wDefaultErr = false, false
 		if app != nil && godi.VerifCacheLen(app) == -1 {
 			rec.add("WForeignScope") // the request closed the long-lived scope
 		}
@@ -560,7 +620,11 @@ func (c WCase) G() string {
 				l = append(l, e)
 			}
 		}
-		return fmt.Sprintf("check_web (mkScen %s %d %s %s, %s)", integNames[s.Integ], s.NMw, exit, gBool(s.CloseFails), evs(l))
+		fn := "check_web"
+		if s.DefaultErr {
+			fn = "check_web_default"
+		}
+		return fmt.Sprintf("%s (mkScen %s %d %s %s, %s)", fn, integNames[s.Integ], s.NMw, exit, gBool(s.CloseFails), evs(l))
 	case "handle":
 		h := c.H
 		ex := "HOk"
@@ -592,6 +656,21 @@ func genWebCases(seed int64, n int, thorough bool) []WCase {
 				if nmw <= 2 {
 					for _, exit := range []int{0, 3} {
 						cases = append(cases, WCase{Kind: "request", W: &WScen{Integ: integ, NMw: nmw, Exit: exit, CloseFails: cf, Outer: true}})
+					}
+				}
+				if nmw >= 1 && nmw <= 2 && !cf {
+					// another scope middleware configured next to this one
+					for _, exit := range []int{0, 2} {
+						cases = append(cases, WCase{Kind: "request", W: &WScen{Integ: integ, NMw: nmw, Exit: exit, TwoStacks: true}})
+					}
+					cases = append(cases, WCase{Kind: "request", W: &WScen{Integ: integ, NMw: nmw, Exit: 1, FailAt: nmw - 1, TwoStacks: true}})
+				}
+				if nmw <= 2 && !cf {
+					// the default error handler
+					cases = append(cases, WCase{Kind: "request", W: &WScen{Integ: integ, NMw: nmw, Exit: 4, DefaultErr: true}},
+						WCase{Kind: "request", W: &WScen{Integ: integ, NMw: nmw, Exit: 0, DefaultErr: true}})
+					for f := 0; f < nmw; f++ {
+						cases = append(cases, WCase{Kind: "request", W: &WScen{Integ: integ, NMw: nmw, Exit: 1, FailAt: f, DefaultErr: true}})
 					}
 				}
 			}
